@@ -1,0 +1,93 @@
+//go:build verif
+
+// Contracts for package pebble (comment-only; compiled only with the build tag "verif",
+// read by /verif/engine). Property C04 (durable directory switch).
+
+package pebble
+
+//@ import vfs "github.com/cockroachdb/pebble/vfs"
+//@ import filepath "path/filepath"
+
+// Ghost crash model of a vfs.FS, at the granularity this package needs. Everything not yet made
+// durable is lost by a crash:
+//   vHas[p] / dHas[p]   path p exists in the volatile / durable namespace
+//   updName[d]          the DB directory name held by d/current.updating (its content is fsynced by
+//                       SaveCurrentDBDirName before it returns)
+//   vCur[d] / dCur[d]   the name held by d/current in the volatile / durable namespace ("" = no file)
+// A directory entry becomes durable only when its parent directory is synced (syncDir).
+//@ ghostfield any.vHas map[string]Bool
+//@ ghostfield any.dHas map[string]Bool
+//@ ghostfield any.updName map[string]string
+//@ ghostfield any.vCur map[string]string
+//@ ghostfield any.dCur map[string]string
+//@ iface vfs.FS.MkdirAll
+//@   assumed
+//@   params fs, dir, perm
+//@   ensures result == nil ==> fs.vHas[dir]
+//@   ensures forall p string :: old(fs.vHas[p]) ==> fs.vHas[p]
+//@   modifies fs.vHas
+// renaming d/current.updating to d/current repoints the volatile current of d; nothing becomes durable
+//@ iface vfs.FS.Rename
+//@   assumed
+//@   params fs, oldname, newname
+//@   ensures result == nil ==> forall d string :: oldname == pjoin(d, "current.updating") && newname == pjoin(d, "current") ==> fs.vCur[d] == old(fs.updName[d])
+//@   ensures forall d string :: !(newname == pjoin(d, "current")) ==> fs.vCur[d] == old(fs.vCur[d])
+//@   ensures forall p string :: p != oldname && old(fs.vHas[p]) ==> fs.vHas[p]
+//@   modifies fs.vCur, fs.vHas
+// syncing directory d makes its entries durable: children of d, and d's current file
+//@ func syncDir
+//@   assumed
+//@   ensures result == nil ==> (forall p string :: parentOf(p) == dir ==> fs.dHas[p] == fs.vHas[p]) && fs.dCur[dir] == fs.vCur[dir]
+//@   ensures forall p string :: parentOf(p) != dir ==> fs.dHas[p] == old(fs.dHas[p])
+//@   ensures forall p string :: fs.dHas[p] == fs.vHas[p] || fs.dHas[p] == old(fs.dHas[p])      // a failed sync leaves each entry synced or not
+//@   ensures forall d string :: d != dir ==> fs.dCur[d] == old(fs.dCur[d])
+//@   ensures fs.dCur[dir] == fs.vCur[dir] || fs.dCur[dir] == old(fs.dCur[dir])
+//@   modifies fs.dHas, fs.dCur
+
+// CreateNodeDataDir: the directory exists and its entry in the parent directory is durable
+//@ func CreateNodeDataDir
+//@   requires fs != nil
+//@   ensures [C04.mkdir.durable] result == nil ==> fs.vHas[dir] && fs.dHas[dir]
+//@   ensures forall p string :: old(fs.dHas[p]) && old(fs.vHas[p]) ==> fs.dHas[p]
+//@   ensures forall d string :: fs.dCur[d] == old(fs.dCur[d]) || d == parentOf(dir)
+//@   modifies fs.vHas, fs.dHas, fs.dCur
+
+// SaveCurrentDBDirName: writes and fsyncs d/current.updating holding the name (md5 + write: ASSUMED)
+//@ func SaveCurrentDBDirName
+//@   assumed
+//@   ensures result == nil ==> fs.updName[dir] == dbdir
+//@   ensures forall p string :: old(fs.dHas[p]) && old(fs.vHas[p]) ==> fs.dHas[p] && fs.vHas[p]
+//@   ensures forall d string :: fs.dCur[d] == old(fs.dCur[d]) && fs.vCur[d] == old(fs.vCur[d])
+//@   modifies fs.updName, fs.vHas, fs.dHas
+
+// ReplaceCurrentDBFile: the durable switch. The directory the new name points to must already be
+// durable - otherwise a crash after the switch leaves `current` naming a directory that does not
+// exist, and the table can never be opened again.
+//@ func ReplaceCurrentDBFile
+//@   requires fs != nil
+//@   requires [C04.switch.target] fs.dHas[pjoin(dir, fs.updName[dir])]
+//@   ensures [C04.switch.durable] result == nil ==> fs.dCur[dir] == old(fs.updName[dir]) && fs.vCur[dir] == old(fs.updName[dir])
+//@   ensures [C04.switch.keeps] forall p string :: p != pjoin(dir, "current.updating") && old(fs.dHas[p]) && old(fs.vHas[p]) ==> fs.dHas[p]
+//@   ensures forall d string :: d != dir ==> fs.dCur[d] == old(fs.dCur[d])
+//@   ensures [C04.switch.either] fs.dCur[dir] == old(fs.dCur[dir]) || fs.dCur[dir] == old(fs.updName[dir]) || fs.dCur[dir] == old(fs.vCur[dir])
+//@   modifies fs.vCur, fs.vHas, fs.dHas, fs.dCur
+
+//@ func IsNewRun
+//@   assumed
+//@   ensures result == (fs.vCur[dir] == "")
+//@   modifies nothing
+//@ func GetCurrentDBDirName
+//@   assumed
+//@   results name, err
+//@   ensures err == nil ==> name == fs.vCur[dir]
+//@   modifies nothing
+//@ func GetNewRandomDBDirName
+//@   assumed
+//@   modifies nothing
+// CleanupNodeDataDir removes everything in dir except `current` and the directory it names
+//@ func CleanupNodeDataDir
+//@   assumed
+//@   ensures forall d string :: fs.dCur[d] == old(fs.dCur[d]) && fs.vCur[d] == old(fs.vCur[d])
+//@   ensures old(fs.vHas[pjoin(dir, fs.vCur[dir])]) ==> fs.vHas[pjoin(dir, fs.vCur[dir])]
+//@   ensures old(fs.dHas[pjoin(dir, fs.vCur[dir])]) ==> fs.dHas[pjoin(dir, fs.vCur[dir])]
+//@   modifies fs.vHas, fs.dHas
